@@ -208,13 +208,27 @@ def run(ctx: Ctx) -> RuleResult:
     # the LALR driver: the error is raised before the offending token is shifted; $END borrows the last token
     ft = repo.func('lark.parsers.lalr_parser_state:ParserState.feed_token')
     ok = False
-    for n in ft.body_nodes():
-        if isinstance(n, ast.Try) and any('KeyError' in norm(h.type) for h in n.handlers if h.type is not None):
-            h = [h for h in n.handlers if h.type is not None and 'KeyError' in norm(h.type)][0]
-            tparam = ft.positional_names()[0]
-            ok = any(isinstance(x, ast.Raise) and isinstance(x.exc, ast.Call) and norm(x.exc.func) == 'UnexpectedToken' and x.exc.args
-                     and norm(x.exc.args[0]) == tparam for x in h.body) and \
-                has_pat([y for x in n.body for y in ast.walk(x)], '$$st[$$s][$t.type]', {'t': tparam})
+    tparam = ft.positional_names()[0]
+    loc1_ = {a.targets[0].id: norm(a.value) for a in ft.body_nodes() if isinstance(a, ast.Assign) and len(a.targets) == 1 and isinstance(a.targets[0], ast.Name)}
+    raises_ = [x for x in ft.body_nodes() if isinstance(x, ast.Raise) and isinstance(x.exc, ast.Call) and norm(x.exc.func) == 'UnexpectedToken' and x.exc.args
+               and norm(x.exc.args[0]) == tparam]
+    looks_ = [y for y in ft.body_nodes() if isinstance(y, ast.Subscript) and isinstance(y.ctx, ast.Load) and norm(y.slice) == tparam + '.type'
+              and not norm(y.value).endswith('callbacks')]
+    if len(raises_) == 1 and looks_:
+        r_ = raises_[0]
+        # (a) in the KeyError handler of a try around the lookup
+        for n in ft.body_nodes():
+            if isinstance(n, ast.Try) and any(r_ is x for h in n.handlers if h.type is not None and 'KeyError' in norm(h.type) for s_ in h.body for x in ast.walk(s_)):
+                ok = any(y in looks_ for x in n.body for y in ast.walk(x))
+        # (b) under `token.type not in <row>`, the row being what the lookup indexes
+        if not ok:
+            from ..exprs import path_conditions as _pc2
+            rows = {loc1_.get(norm(y.value), norm(y.value)) for y in looks_}
+            for t_, pol_ in _pc2(r_):
+                if isinstance(t_, ast.Compare) and len(t_.ops) == 1 and norm(t_.left) == tparam + '.type' \
+                        and ((isinstance(t_.ops[0], ast.NotIn) and pol_) or (isinstance(t_.ops[0], ast.In) and not pol_)):
+                    row = norm(t_.comparators[0])
+                    ok = loc1_.get(row, row) in rows and all(y.lineno >= r_.lineno for y in looks_)
     res.ob('%s %s' % (ft.loc(), ft.qual), 'a token with no action in the current state raises UnexpectedToken(token, ...) before any shift', ok)
     if not ok:
         res.finding(ft, ft.node, 'the missing-action case of the LALR driver no longer raises UnexpectedToken for the offending token', construct='lalr-unexpected')
